@@ -120,11 +120,13 @@ type FakeKDC struct {
 func NewFakeKDC(name string, beh KDCBehaviour) (*FakeKDC, error) {
 	k := &FakeKDC{Name: name, Beh: beh}
 	for attempt := 0; attempt < 20; attempt++ {
-		l, err := net.Listen("tcp", "127.0.0.1:0")
+		// a port below the kernel's ephemeral range: a client socket of the gateway can then never
+		// get the KDC's own port as its source port and talk to itself on loopback
+		port := FreePort()
+		l, err := net.Listen("tcp", fmt.Sprintf("127.0.0.1:%d", port))
 		if err != nil {
-			return nil, err
+			continue
 		}
-		port := l.Addr().(*net.TCPAddr).Port
 		u, err := net.ListenUDP("udp", &net.UDPAddr{IP: net.ParseIP("127.0.0.1"), Port: port})
 		if err != nil {
 			l.Close()
